@@ -130,6 +130,8 @@ class C07Representations(Harness):
                 yield f"rep-static-regular-M{M}", dict(kind="static", M=M, regular=True)
                 yield f"rep-static-irregular-M{M}", dict(kind="static", M=M, regular=False)
         yield "rep-exponential-M2", dict(kind="exponential", M=2, regular=None)
+        # a genuine gap that is small relative to the edges (inside is_consecutive's relative tolerance)
+        yield "rep-smallgap0-M2", dict(kind="gapped", M=2, gap=0, regular=None, small=True)
 
     def declare(self, cx, p):
         M, kind = p["M"], p["kind"]
@@ -152,7 +154,12 @@ class C07Representations(Harness):
             x["l"], x["r"] = cx.reals("l", M), cx.reals("r", M)
             if cx.sym:
                 L, R = [cx.t(i) for i in x["l"]], [cx.t(i) for i in x["r"]]
-                cx.assume(rising_pairs(L, R), tolerance_band(L, R))
+                if p.get("small"):
+                    ar = zabs(R[0])
+                    cx.assume(rising_pairs(L, R), ar >= 1, L[1] - R[0] >= ar / 400000, L[1] - R[0] <= ar / 200000)
+                else:
+                    cx.assume(rising_pairs(L, R), tolerance_band(L, R))
+                cx.define("small_gap", z3.BoolVal(bool(p.get("small"))))
                 cx.assume(*[z3.And(t >= -1000, t <= 1000) for t in L + R])
                 cx.assume(*[R[j] - L[j] > z3.Q(1, 100) for j in range(M)])
                 for j in range(M - 1):
@@ -166,6 +173,11 @@ class C07Representations(Harness):
             if cx.sym:
                 cx.assume(x["lw"] > 0.125, x["lw"] <= 2, x["lm"] >= -3, x["lm"] <= 3)
         return x
+
+    def witness_hints(self, cx, p, x):
+        if not p.get("small"):
+            return []
+        return [[cx.t(x["r"][0]) == 512, cx.t(x["l"][1]) == 512 + z3.Q(1, 512), cx.t(x["l"][0]) == 500, cx.t(x["r"][1]) == 520]]
 
     def _make(self, E, p, x):
         np = E.np
